@@ -461,3 +461,61 @@ V("C02-shard-metrics-before-error","C02","pkg/local_object_storage/shard/inhume.
 	if err != nil {""","""	inhumed, err := s.metaBase.MarkGarbage(cnr, addrs, mark)
 	s.addObjectCounter(gcObjType, inhumed.NewGarbage)
 	if err != nil {""",rule="C02.R4")
+
+# ---- C09
+V("C09-put-ignores-tombstone","C09",MB+"put.go","""		// OK, we're putting here.
+	case err != nil:""","""		// OK, we're putting here.
+	case errors.Is(err, apistatus.ErrObjectAlreadyRemoved) && nestingLevel > 0:
+	case err != nil:""",rule="C09.R1")
+V("C09-batch-tolerates-all","C09",MB+"put.go","""					continue
+				}
+				return err
+			}
+			successIndices = append(successIndices, i)""","""					continue
+				}
+				if len(objs) > 1 {
+					continue
+				}
+				return err
+			}
+			successIndices = append(successIndices, i)""",rule="C09.R2")
+V("C09-parent-skips-exists","C09",MB+"put.go","""	exists, err := db.exists(tx, obj.Address(), currEpoch, false)
+""","""	var exists bool
+	var err error
+	if nestingLevel == 0 {
+		exists, err = db.exists(tx, obj.Address(), currEpoch, false)
+	}
+""",rule="C09.R1")
+V("C09-remark-clears-mark","C09",MB+"inhume.go","""			if mark == GarbageMarkDefault && len(v) > 0 {
+				if err := metaBucket.Put(garbKey, nil); err != nil {
+					return diff, err
+				}
+			}""","""			if mark == GarbageMarkDefault && len(v) > 0 {
+				if err := metaBucket.Put(garbKey, nil); err != nil {
+					return diff, err
+				}
+			} else if mark != GarbageMarkDefault && len(v) == 0 {
+				if err := metaBucket.Delete(mkGarbageKey(id)); err != nil {
+					return diff, err
+				}
+			}""",rule="C09.R4")
+V("C09-silent-put-switch-to-if","C09",MB+"put.go","""	switch {
+	case exists:
+		return diff, nil
+	case errors.As(err, &apistatus.ObjectNotFound{}):
+		// OK, we're putting here.
+	case err != nil:
+		return diff, err // return any other errors
+	}
+""","""	if exists {
+		return diff, nil
+	}
+	if err != nil && !errors.As(err, &apistatus.ObjectNotFound{}) {
+		return diff, err // return any other errors
+	}
+""",expect="silent")
+V("C02-reput-counts-again","C02",MB+"put.go","""		if _, typErr := fetchTypeForID(metaBkt.Cursor(), obj.GetID()); typErr == nil {
+			return diff, nil
+		}
+""","",rule="C02.R7")
+V("C02-tombstone-double-count","C02",MB+"put.go","if !bytes.Equal(k, garbageKey) && inGarbage(metaCursor, id) == statusAvailable {","_ = k\n\t\t\t\tif inGarbage(metaCursor, id) == statusAvailable {",rule="C02.R5")
